@@ -47,7 +47,7 @@ m = {
     }],
     "checks": checks,
     "not_applicable": [{"property_id": p, "reason": NOT_APPLICABLE[p]} for p in sorted(NOT_APPLICABLE)],
-    "notes": "Every check decides a named set of structural clauses of its property (see DESIGN.md §4 and each evidence file's coverage.explanation); value-level clauses are declared not decided. Known genuine defects: /verif/known_findings.json.",
+    "notes": "Every check decides a named set of structural clauses of its property (see DESIGN.md §4 and each evidence file's coverage.explanation); value-level clauses are declared not decided. Known genuine defects: /verif/known_findings.json. The thorough tier additionally replays, on scratch copies of /repo, every seeded breaking change the check is recorded to catch (/verif/seeded, must alarm) and every behaviour-preserving edit of /verif/benign (must stay silent); those replays validate the checker, the verdict on /repo is the quick tier's.",
 }
 json.dump(m, open(os.path.join(HERE, "MANIFEST.json"), "w"), indent=1)
 all_ids = [json.loads(l)["id"] for l in open(os.path.join(HERE, "properties.jsonl"))]
